@@ -710,7 +710,7 @@ def _val(d, desc, t, depth, ctx, nullable):
     if name == "ID":
         return d.choice(["id1", "42", ""])
     if name == "String":
-        return d.choice(["", "abc", 'q"uote', "uni-żó", "it's", "a\nb", "\\"])
+        return d.choice(["", "abc", 'q"uote', "uni-żó", "it's", "a\nb", "\\", " padded ", "tab\t"])
     if name in desc.enums:
         d.tag(f"{ctx}.enum")
         return {"$e": [name, d.choice(desc.enums[name])]}
@@ -723,6 +723,8 @@ def _val(d, desc, t, depth, ctx, nullable):
                 return {"$money": 0}  # a FALSY value of the scalar's Python type (the empty string)
             desc.money_counter = getattr(desc, "money_counter", 0) + 1
             return {"$money": desc.money_counter}
+        if kind == "str":
+            return d.choice(["c1", "c2", ""])
         if kind == "datetime":
             return {"$dt": d.choice(["2020-01-02T03:04:05", "1999-12-31T23:59:59", "2024-02-29T00:00:00"])}
         return d.choice(["sc", 7, True, {"k": [1, 2]}, [1, "a"]])
